@@ -200,7 +200,7 @@ func jobsFor(id, tier string) []*Job {
 			}
 		}
 		add(split(wmk("bind", "zzverifw.H_C03_bind", bp))...)
-		add(split(wmk("scope", "zzverifw.H_C03_scope", ints(0, 13)))...)
+		add(split(wmk("scope", "zzverifw.H_C03_scope", ints(0, 16)))...)
 	case "C04":
 		nmax := 2
 		if thorough {
@@ -222,10 +222,10 @@ func jobsFor(id, tier string) []*Job {
 		add(split(wmk("recv", "zzverifw.H_C04_recv", ints(0, 6)))...)
 	case "C09":
 		op := [][]int{{1, 0}, {2, 0}, {3, 0}, {2, 2}, {1, 2}}
-		mp := [][]int{{1, 0}, {2, 0}, {1, 1}}
+		mp := [][]int{{1, 0, 0}, {2, 0, 0}, {1, 1, 0}, {0, 1, 1}, {1, 1, 1}}
 		if thorough {
 			op = append(op, []int{3, 2}, []int{4, 0})
-			mp = append(mp, []int{3, 0}, []int{2, 1}, []int{2, 2})
+			mp = append(mp, []int{3, 0, 0}, []int{2, 1, 0}, []int{2, 2, 0}, []int{0, 2, 1}, []int{1, 1, 2})
 		}
 		add(split(wmk("obj", "zzverifw.H_C09_obj", op))...)
 		add(split(wmk("map", "zzverifw.H_C09_map", mp))...)
@@ -257,7 +257,10 @@ func jobsFor(id, tier string) []*Job {
 			}
 			for i := 0; i < 2; i++ {
 				for op := 0; op < 4; op++ {
-					ps = append(ps, []int{l, i, op, narrow})
+					ps = append(ps, []int{l, i, op, narrow, 0})
+					if narrow == 1 && (op == 1 || op == 2 || thorough) {
+						ps = append(ps, []int{l, i, op, narrow, 1}) // family without declared parameters
+					}
 				}
 			}
 		}
@@ -311,7 +314,7 @@ func jobsFor(id, tier string) []*Job {
 		}
 		add(split(wmk("defer", "zzverifw.H_C15_defer", ps))...)
 	case "C12":
-		add(split(wmk("truth", "zzverifw.H_C12_truth", ints(0, 13)))...)
+		add(split(wmk("truth", "zzverifw.H_C12_truth", ints(0, 17)))...)
 	case "C10":
 		im := mk("bin", "zzverifw.H_C10_bin", ints(0, 4)) // + - * // % : Int theory with explicit wrap
 		im.IntMode = true
@@ -376,7 +379,7 @@ func assumptionsFor(id string) []string {
 	case "C05":
 		return append(common, "every object carries a unique id property, so structural == (used by ancestors/kindOf?) coincides with identity", "forest model (parent, defined kinds, _missing) kept by the harness; expected raw property values are read from the definer's own Pairs map")
 	case "C14":
-		return append(common, "iterator family: <{|n| yield n * 10 + 1 if n < lim; recur(n + d)}> with lim in [-2,5], d in [1,3], start values in [-3,5] — all symbolic within those ranges", "reference = per-iterator state machine in the harness (DESIGN.md 5.14)")
+		return append(common, "iterator families: <{|n| yield n * 10 + 1 if n < lim; recur(n + d)}> and the same body written without declared parameters (<{yield \\ * 10 + 1 if \\ < lim; recur(\\ + d)}>), with lim in [-2,5], d in [1,3], start values in [-3,5] — all symbolic within those ranges", "reference = per-iterator state machine in the harness (DESIGN.md 5.14)")
 	case "C13":
 		return append(common, "steps are methods of a receiver object, literal calls, and operator calls written in chain form (.+(n)); step names are ones the Either wrapper does not define itself (DESIGN.md Appendix B, C13 domain note) — names the wrapper's own prototype chain answers (A, val, ==, S, p, keys ...) never reach the _missing proxy and are outside the domain", "failures are injected inside the callee (step(i) raises iff i == K); a raise during argument evaluation happens before the call and is not a failure of the step")
 	case "C18":
@@ -454,7 +457,7 @@ func boundsFor(id, tier string, jobs []*Job) map[string]interface{} {
 		b["two_steps"] = "first any Arr property on the literal array with argument [7] / 2 / function; then one of 8 array-building properties (+ * append prepend zip chain map rev) on the same receiver or on the first result; payloads concrete (quick) and symbolic ints in (1, 100) (thorough)"
 	case "C03":
 		b["binding"] = "0..3 positional and 0..2 keyword parameters (all 12 signatures) x 0..4 positional arguments (tail optionally as *[...]) x each of k1, k2 and the unknown zz absent / before the positionals / after them / through **{...} (solver choices)"
-		b["scoping"] = "14 scenarios (closure sees later reassignment, never the caller's scope, assignment and compound assignment stay local, sibling isolation, recursion frames, shadowing, function-making functions, receiver first, receiver-less chain, fresh frame per call, closures made in a chain, nested closures, method scope) with inputs a, b any int in (-10^6, 10^6)"
+		b["scoping"] = "17 scenarios (incl. nested * and ** unpacking of the same array / object in one call; closure sees later reassignment, never the caller's scope, assignment and compound assignment stay local, sibling isolation, recursion frames, shadowing, function-making functions, receiver first, receiver-less chain, fresh frame per call, closures made in a chain, nested closures, method scope) with inputs a, b any int in (-10^6, 10^6)"
 	case "C04":
 		if tier == "thorough" {
 			b["elements"] = "arrays of 1..3 elements"
@@ -470,7 +473,7 @@ func boundsFor(id, tier string, jobs []*Job) map[string]interface{} {
 			b["map_literals"] = "1..3 pairs, or 1..2 pairs + a ** of 1..2 pairs"
 		} else {
 			b["object_literals"] = "1..3 pairs, or 1..2 pairs + a ** of 2 pairs; every name a solver choice from {a, b, _p}"
-			b["map_literals"] = "1..2 pairs, or 1 pair + a ** of 1 pair"
+			b["map_literals"] = "1..2 pairs, 1 pair + a ** of 1 pair, and 0..1 pairs + two ** expansions of 1 pair each"
 		}
 		b["map_keys"] = "kind per key a solver choice of int (any int64), float (any non-NaN, non -0.0 pattern), str (pool of 2), nil, bool, one-element array of any int64 — whether two keys collide is decided by the solver"
 		b["accessors"] = "keys / values / items (with and without private?: true), iteration, len, o['name], o.name, m[k] for every written key and for a fresh symbolic int key"
@@ -528,7 +531,7 @@ func boundsFor(id, tier string, jobs []*Job) map[string]interface{} {
 		b["statement_kinds"] = "mark; defer mark; defer mark if g (g any int64); return v if k == i; raise if k == i; nested failing call (with its own defer) if k == i; defer that raises — all 7^n shapes, exit point k any int64"
 		b["nesting"] = "function called from an enclosing function that continues after the call (defer leak to the caller is visible)"
 	case "C12":
-		b["condition_values"] = "int: any int64; float: any 64-bit pattern (NaN, infinities, signed zeros); str/arr/obj/map: empty and one-element; nil; true; false; Int.bear.new(v) for any int64 v; bear child of an array; object with user-defined B returning either boolean; range; function"
+		b["condition_values"] = "int: any int64; float: any 64-bit pattern (NaN, infinities, signed zeros); str/arr/obj/map: empty and one-element; nil; true; false; Int.bear.new(v) for any int64 v; bear child of an array; object with user-defined B returning either boolean; range; function; objects whose B is a non-boolean value, nil, or a method returning a non-boolean; a BaseObj child with no B at all"
 		b["constructs"] = "c.B, `x if c else y`, `x if c`, !c, c && x, c || x, guarded return / raise / yield / defer (11 templates per condition value)"
 	case "C10":
 		b["operands"] = "a, b: any int64 (full 64-bit range) for + - * // % <=> / and unary -, called through the IntProps table and (except /) through parsed source `a op b` evaluated by Eval in the bootstrapped world (plus < == >=)"
